@@ -14,7 +14,7 @@ import TraitsVerif.Lemmas.SetStep
 import TraitsVerif.Py.Dict
 import TraitsVerif.Generated.Mutators
 namespace TraitsVerif.Props.C07
-open TraitsVerif TraitsVerif.Py TraitsVerif.Model
+open TraitsVerif TraitsVerif.Py TraitsVerif.Model.SetM
 open TraitsVerif.Py.PSet (Op WF Equiv ofList)
 
 variable {α : Type} [DecidableEq α]
@@ -56,18 +56,18 @@ the model (like the code) leaves `{3}` and notifies nobody, the builtin set on
 the validated operand `{3}` removes 3.  So the hypothesis of `C07_refines`
 cannot be dropped. -/
 theorem C07_refines_fails_at :
-    ¬ SetRefines Atom.intV [Atom.int 3] (.ixor true [Atom.str 3]) := by
+    ¬ SetRefines KAtom.intV [KAtom.int 3] (.ixor true [KAtom.str 3]) := by
   intro h
-  have h1 : (TraitSet.step Atom.intV [Atom.int 3] (.ixor true [Atom.str 3])).map SOut.proj =
-      .ok ([Atom.int 3], none) := by decide
-  have h2 : setReference Atom.intV [Atom.int 3] (.ixor true [Atom.str 3]) = .ok ([], none) := by decide
+  have h1 : (TraitSet.step KAtom.intV [KAtom.int 3] (.ixor true [KAtom.str 3])).map SOut.proj =
+      .ok ([KAtom.int 3], none) := by decide
+  have h2 : setReference KAtom.intV [KAtom.int 3] (.ixor true [KAtom.str 3]) = .ok ([], none) := by decide
   unfold SetRefines at h
   rw [h1, h2] at h
-  exact absurd ((h.1 (Atom.int 3)).mp (by simp)) (by simp)
+  exact absurd ((h.1 (KAtom.int 3)).mp (by simp)) (by simp)
 
-/-- The full-strength refinement statement (`Model.C07RefinesFull`) is false of
+/-- The full-strength refinement statement (`Model.SetM.C07RefinesFull`) is false of
 the code as it stands. -/
-theorem C07_refines_full_fails : ¬ C07RefinesFull Atom := by
+theorem C07_refines_full_fails : ¬ C07RefinesFull KAtom := by
   intro h
   exact C07_refines_fails_at (h _ _ _ (by decide))
 
@@ -75,20 +75,20 @@ theorem C07_refines_full_fails : ¬ C07RefinesFull Atom := by
 pins (`test_ixor_validator_args_with_added`: `{'1','2','3'} ^= {'2', 3, 4}` under
 `str`), replayed on the real code by the oracle. -/
 theorem C07_F24_model_behaviour :
-    TraitSet.step Atom.intV [Atom.int 3] (.ixor true [Atom.str 3]) = .ok { items := [Atom.int 3] } ∧
-    TraitSet.step Atom.strV [Atom.str 1, Atom.str 2, Atom.str 3] (.ixor true [Atom.str 2, Atom.int 3, Atom.int 4]) =
-      .ok { items := [Atom.str 1, Atom.str 3, Atom.str 4],
-            event := some ⟨[Atom.str 2], [Atom.str 4]⟩ } := by decide
+    TraitSet.step KAtom.intV [KAtom.int 3] (.ixor true [KAtom.str 3]) = .ok { items := [KAtom.int 3] } ∧
+    TraitSet.step KAtom.strV [KAtom.str 1, KAtom.str 2, KAtom.str 3] (.ixor true [KAtom.str 2, KAtom.int 3, KAtom.int 4]) =
+      .ok { items := [KAtom.str 1, KAtom.str 3, KAtom.str 4],
+            event := some ⟨[KAtom.str 2], [KAtom.str 4]⟩ } := by decide
 
 /-- Non-vacuity of `C07_refines`: a coercing validator with a partial overlap. -/
-example : SymHyp Atom.intV [Atom.int 1, Atom.int 2] (.symmetricDifferenceUpdate [Atom.int 2, Atom.str 5, Atom.str 5]) ∧
-    TraitSet.step Atom.intV [Atom.int 1, Atom.int 2] (.symmetricDifferenceUpdate [Atom.int 2, Atom.str 5, Atom.str 5]) =
-      .ok { items := [Atom.int 1, Atom.int 5], event := some ⟨[Atom.int 2], [Atom.int 5]⟩ } := by
+example : SymHyp KAtom.intV [KAtom.int 1, KAtom.int 2] (.symmetricDifferenceUpdate [KAtom.int 2, KAtom.str 5, KAtom.str 5]) ∧
+    TraitSet.step KAtom.intV [KAtom.int 1, KAtom.int 2] (.symmetricDifferenceUpdate [KAtom.int 2, KAtom.str 5, KAtom.str 5]) =
+      .ok { items := [KAtom.int 1, KAtom.int 5], event := some ⟨[KAtom.int 2], [KAtom.int 5]⟩ } := by
   refine ⟨?_, by decide⟩
   intro ws hws
-  have : ws = [Atom.int 5] := by
-    have h : valAll Atom.intV 0 (symRaw [Atom.int 1, Atom.int 2] [Atom.int 2, Atom.str 5, Atom.str 5]) =
-        .ok [Atom.int 5] := by decide
+  have : ws = [KAtom.int 5] := by
+    have h : valAll KAtom.intV 0 (symRaw [KAtom.int 1, KAtom.int 2] [KAtom.int 2, KAtom.str 5, KAtom.str 5]) =
+        .ok [KAtom.int 5] := by decide
     rw [h] at hws; cases hws; rfl
   subst this; decide
 
@@ -281,18 +281,18 @@ theorem C07_deepcopy_revalidates {N : Type} (o : TSObj α N) :
 (contents `{2}`) is `{3}`: the deep copy is not equal to the original, so the
 hypothesis of `C07_copy` for `deepcopy` cannot be dropped. -/
 theorem C07_copy_fails_at :
-    ¬ CopyOK .deepcopy ({ items := [Atom.int 2], validator := Atom.incV, notifiers := ([] : List Nat) }) := by
+    ¬ CopyOK .deepcopy ({ items := [KAtom.int 2], validator := KAtom.incV, notifiers := ([] : List Nat) }) := by
   rintro ⟨o', ho, heq, -⟩
-  have hv : valAll Atom.incV 0 [Atom.int 2] = .ok [Atom.int 3] := by decide
+  have hv : valAll KAtom.incV 0 [KAtom.int 2] = .ok [KAtom.int 3] := by decide
   simp only [TraitSet.copyOp, TraitSet.init, hv] at ho
   cases ho
-  have : Atom.int 2 ∈ ofList [Atom.int 3] := (heq (Atom.int 2)).mpr (by simp)
+  have : KAtom.int 2 ∈ ofList [KAtom.int 3] := (heq (KAtom.int 2)).mpr (by simp)
   rw [PSet.mem_ofList] at this
   simp at this
 
-theorem C07_copy_full_fails : ¬ C07CopyFull Atom Nat :=
+theorem C07_copy_full_fails : ¬ C07CopyFull KAtom Nat :=
   fun h => C07_copy_fails_at
-    (h .deepcopy { items := [Atom.int 2], validator := Atom.incV, notifiers := [] } (by decide))
+    (h .deepcopy { items := [KAtom.int 2], validator := KAtom.incV, notifiers := [] } (by decide))
 
 /-- Non-vacuity of `C07_copy`: a rejecting validator whose members are fixed points. -/
 example (v : Callback Int Int) (hv : v = fun _ x => if x < 0 then .error .traitError else .ok x) :
